@@ -100,7 +100,9 @@ pub fn dec_as_set<T: Serial + Deserial + PartialEq>(b: &[u8]) -> DecOut {
     o
 }
 
-pub fn roundtrip<T: Serial + Deserial>(v: &T, eq: fn(&T, &T) -> bool, variant: String) -> GenOut {
+pub fn roundtrip<T: Serial + Deserial>(v: &T, eq: fn(&T, &T) -> bool, variant: String) -> GenOut { roundtrip_x(v, eq, variant, false) }
+
+pub fn roundtrip_x<T: Serial + Deserial>(v: &T, eq: fn(&T, &T) -> bool, variant: String, set_like: bool) -> GenOut {
     let bytes = match vmon_core::catch(|| concordium_base::common::to_bytes(v)) {
         Ok(b) => b,
         Err(p) => return GenOut { bytes: vec![], rt: Err(format!("encoding panicked: {}", p)), variant },
@@ -120,7 +122,7 @@ pub fn roundtrip<T: Serial + Deserial>(v: &T, eq: fn(&T, &T) -> bool, variant: S
                 Err("decoded value differs from the original".to_string())
             } else {
                 let b2 = concordium_base::common::to_bytes(&v2);
-                if b2 != bytes {
+                if b2 != bytes && !set_like {
                     Err("re-encoding of the decoded value differs".to_string())
                 } else {
                     Ok(())
@@ -168,6 +170,15 @@ pub fn judge(e: &Entry, input: &[u8], o: &DecOut) -> Option<(&'static str, Strin
 struct Run<'a> {
     sh: &'a mut Shard,
     reg: &'a [Entry],
+    /// types whose decoder showed an allocation driven by a 64-bit field: arbitrary bytes can make
+    /// them demand more than the allocator's hard limit (process abort), so they are never used
+    /// for secondary decoding (attribution) and their witnesses are minimised numerically only
+    abort_prone: std::collections::HashSet<String>,
+    /// during the pre-flight, violations are queued (registry index, kind, detail, input,
+    /// mutation) and reported afterwards, when the abort-prone decoders are known
+    deferred: Option<Vec<(usize, &'static str, String, Vec<u8>, String)>>,
+    last_kind: Option<&'static str>,
+    in_probe: bool,
     /// (type, kind) -> number of violations minimised so far in this shard
     buckets: std::collections::HashMap<(String, String), u32>,
 }
@@ -195,9 +206,28 @@ impl Run<'_> {
             self.sh.hit("decode_err");
         }
         match judge(e, input, &o) {
-            None => (ok, false),
+            None => {
+                self.last_kind = None;
+                (ok, false)
+            }
             Some((kind, detail)) => {
-                self.report(e, idx, kind, detail, input, mkind);
+                self.last_kind = Some(kind);
+                if kind == "alloc-bound" && !self.in_probe && self.abort_prone.contains(e.name) {
+                    // same decoder already reported from the deterministic probe
+                    self.sh.hit("violation.alloc-bound");
+                    self.sh.hit("violation.alloc_bound_of_probed_type_not_reported_again");
+                } else if let Some(q) = &mut self.deferred {
+                    let ri = self.reg.iter().position(|c| std::ptr::eq(c, e)).unwrap_or(0);
+                    let n = q.iter().filter(|x| x.0 == ri && x.1 == kind).count();
+                    if n < (if kind == "alloc-bound" { 1 } else { MINIMISE_PER_BUCKET as usize }) {
+                        q.push((ri, kind, detail, input.to_vec(), mkind.to_string()));
+                    } else {
+                        self.sh.hit(&format!("violation.{}", kind));
+                        self.sh.hit("violation.not_minimised_again");
+                    }
+                } else {
+                    self.report(e, idx, kind, detail, input, mkind);
+                }
                 (ok, true)
             }
         }
@@ -206,7 +236,10 @@ impl Run<'_> {
     fn report(&mut self, e: &Entry, idx: u64, kind: &'static str, detail: String, input: &[u8], mkind: &str) {
         let key = (e.name.to_string(), kind.to_string());
         let n = self.buckets.entry(key).or_insert(0);
-        if *n >= MINIMISE_PER_BUCKET || !self.sh.violation_budget_left() {
+        // allocation witnesses: one per type and shard (the pre-flight finds them from fixed
+        // generator streams, so the signature does not depend on the seed)
+        let cap = if kind == "alloc-bound" { 1 } else { MINIMISE_PER_BUCKET };
+        if *n >= cap || !self.sh.violation_budget_left() {
             self.sh.hit(&format!("violation.{}", kind));
             self.sh.hit("violation.not_minimised_again");
             return;
@@ -237,13 +270,21 @@ impl Run<'_> {
             _ => input.to_vec(),
         };
         let long = base.len() > 600;
-        let min = util::minimise(&base, same, if e.heavy || long { 1500 } else { 20000 }, !(e.heavy || long), kind == "alloc-bound");
+        // decoders that can abort the process on arbitrary bytes: only truncate (any other edit can
+        // shift the parse and turn arbitrary bytes into a 64-bit length)
+        let truncate_only = self.abort_prone.contains(e.name);
+        let min = util::minimise(&base, same, if e.heavy || long { 1500 } else { 20000 }, !(e.heavy || long) || kind == "alloc-bound", kind == "alloc-bound", truncate_only);
         // attribute the violation to the innermost registered decoder that shows it on a
         // suffix of the witness (the same leaf defect surfaces in every enclosing type)
-        let (e2, min2, at) = self.delegate(e, kind, &min);
+        let reg = self.reg;
+        let (ri, min2, at) = self.delegate(e, kind, &min);
+        let e2: &Entry = match ri {
+            Some(i) => &reg[i],
+            None => e,
+        };
         let min2 = if at.is_some() {
             let same2 = |c: &[u8]| matches!(judge(e2, c, &(e2.dec)(c)), Some((k, _)) if k == kind);
-            util::minimise(&min2, same2, if e2.heavy { 1500 } else { 20000 }, !e2.heavy, kind == "alloc-bound")
+            util::minimise(&min2, same2, if e2.heavy { 1500 } else { 20000 }, !e2.heavy, kind == "alloc-bound", false)
         } else {
             min2
         };
@@ -265,24 +306,68 @@ impl Run<'_> {
         );
     }
 
+    /// Abort-safe inflation probe of one valid encoding: 8-byte windows (the only width that can
+    /// demand more than the allocator's hard limit), offsets from right
+    /// to left, ascending values, so that a length field first receives moderate values
+    /// (a field is reached through its low-order bytes first); the neighbourhood of a window
+    /// that produced an allocation violation is not touched again. Returns true if an
+    /// allocation violation was seen.
+    fn probe(&mut self, e: &Entry, idx: u64, b: &[u8]) -> bool {
+        let n = b.len();
+        let mut zones: Vec<(usize, usize)> = vec![];
+        let mut found = false;
+        self.in_probe = true;
+        for w in [8usize] {
+            if w > n {
+                continue;
+            }
+            for off in (0..=(n - w)).rev() {
+                if zones.iter().any(|(a, z)| off < *z && *a < off + w) {
+                    continue;
+                }
+                let mut m = b.to_vec();
+                for v in probe_values(w) {
+                    util::write_be(&mut m, off, w, v);
+                    let (_, bad) = self.eval(e, idx, "inflate_probe", &m, b);
+                    if bad {
+                        if self.last_kind == Some("alloc-bound") {
+                            zones.push((off.saturating_sub(8), off + w + 8));
+                            found = true;
+                            if w == 8 {
+                                self.abort_prone.insert(e.name.to_string());
+                            }
+                        }
+                        break;
+                    }
+                }
+            }
+        }
+        self.in_probe = false;
+        found
+    }
+
     /// Find a registered type whose decoder shows the same kind of violation on a suffix
     /// of `w` (preferring the shortest witness, then registry order).
-    fn delegate<'b>(&self, e: &'b Entry, kind: &str, w: &[u8]) -> (&'b Entry, Vec<u8>, Option<usize>)
-    where
-        'a: 'b,
-    {
+    fn delegate(&self, e: &Entry, kind: &str, w: &[u8]) -> (Option<usize>, Vec<u8>, Option<usize>) {
+        // only canonicity violations are attributed (same first differing position and same
+        // canonical byte there); allocation witnesses stay with the type they were found in
+        if kind != "non-canonical" {
+            return (None, w.to_vec(), None);
+        }
+        let own_ri = self.reg.iter().position(|c| c.name == e.name).unwrap_or(usize::MAX);
         let o = (e.dec)(w);
-        let starts: Vec<usize> = match (&o.res, kind) {
-            (Ok((pos, re)), "non-canonical") => {
-                let d = w[..*pos].iter().zip(re.iter()).position(|(a, b)| a != b).unwrap_or(0);
-                (d.saturating_sub(160)..=d).collect()
-            }
-            _ => (0..w.len().min(160)).collect(),
+        let (d, re_d) = match &o.res {
+            Ok((pos, re)) => match w[..*pos].iter().zip(re.iter()).position(|(a, b)| a != b) {
+                Some(d) => (d, re[d]),
+                None => return (None, w.to_vec(), None),
+            },
+            _ => return (None, w.to_vec(), None),
         };
+        let starts: Vec<usize> = (d.saturating_sub(160)..=d).collect();
         let mut best: Option<(usize, usize, usize)> = None; // (witness len, registry index, start)
         for &s in &starts {
             for (ri, c) in self.reg.iter().enumerate() {
-                if s == 0 && c.name == e.name {
+                if (s == 0 && c.name == e.name) || self.abort_prone.contains(c.name) {
                     continue;
                 }
                 let slice = &w[s..];
@@ -290,9 +375,15 @@ impl Run<'_> {
                 if !matches!(judge(c, slice, &oc), Some((k, _)) if k == kind) {
                     continue;
                 }
-                let wl = match (&oc.res, kind) {
-                    (Ok((pos, _)), "non-canonical") => *pos,
-                    _ => slice.len(),
+                let wl = match &oc.res {
+                    Ok((pos, re)) => {
+                        let dc = slice[..*pos].iter().zip(re.iter()).position(|(a, b)| a != b);
+                        if dc != Some(d - s) || re[d - s] != re_d {
+                            continue;
+                        }
+                        *pos
+                    }
+                    _ => continue,
                 };
                 if best.map_or(true, |b| (wl, ri) < (b.0, b.1)) {
                     best = Some((wl, ri, s));
@@ -300,8 +391,8 @@ impl Run<'_> {
             }
         }
         match best {
-            Some((wl, ri, s)) if wl < w.len() || s > 0 => (&self.reg[ri], w[s..s + wl].to_vec(), Some(s)),
-            _ => (e, w.to_vec(), None),
+            Some((wl, ri, s)) if (wl, ri) < (w.len(), own_ri) => (Some(ri), w[s..s + wl].to_vec(), Some(s)),
+            _ => (None, w.to_vec(), None),
         }
     }
 }
@@ -336,13 +427,26 @@ fn replay(reg: &[Entry], case: &vmon_core::Value, sh: &mut Shard) -> bool {
     true
 }
 
+/// ladders of the abort-safe probe (ascending)
+fn probe_values(w: usize) -> Vec<u64> {
+    match w {
+        // steps of 2^11: whatever the shift between window and field, some value puts the field
+        // between the bound (~2^21) and the allocator's hard limit (2^34)
+        8 => vec![1 << 22, 1 << 33, 1 << 44, 1 << 55, 1 << 63, u64::MAX],
+        4 => vec![1 << 16, 1 << 20, 1 << 22, 1 << 24, 1 << 28, 1 << 31, u32::MAX as u64],
+        2 => vec![1 << 8, 1 << 15, u16::MAX as u64],
+        _ => vec![0x80, 0xff],
+    }
+}
+
 pub fn run(ctx: &ChildCtx, sh: &mut Shard) {
     let mut reg = c05_gen::registry();
-    // debugging aid: restrict the registry (never set by ./vcheck)
+    // debugging aids (never set by ./vcheck): restrict the registry, per-type timing
     if let Ok(only) = std::env::var("C05_ONLY") {
         let names: Vec<&str> = only.split(';').collect();
         reg.retain(|e| names.contains(&e.name));
     }
+    let profile = std::env::var("C05_PROFILE").is_ok();
     if ctx.replaying() {
         if let Some(case) = util::replay_case() {
             if replay(&reg, &case, sh) {
@@ -358,11 +462,45 @@ pub fn run(ctx: &ChildCtx, sh: &mut Shard) {
         }
     };
     let nodebug = ctx.san == "nodebug";
-    let mut run = Run { sh, reg: &reg, buckets: Default::default() };
+    let mut run = Run { sh, reg: &reg, buckets: Default::default(), abort_prone: Default::default(), deferred: Some(vec![]), last_kind: None, in_probe: false };
     let ntypes = reg.len() as u64;
     let mut exercised = std::collections::HashSet::new();
+    // (type, variant) pairs already probed / found to pre-allocate without bound in this shard
+    let mut probed: std::collections::HashSet<(String, String)> = Default::default();
+    let mut fragile: std::collections::HashSet<(String, String)> = Default::default();
+    // --- pre-flight: probe one value per (type, variant) from fixed generator streams before
+    // anything else decodes arbitrary bytes, so that abort-prone decoders are known up front
+    if !ctx.replaying() {
+        for e in reg.iter().filter(|e| !e.heavy) {
+            let mut streams = 6u64;
+            let mut k = 0u64;
+            while k < streams {
+                let g = match vmon_core::catch(|| (e.gen)(&mut Rng::new(0xC05_9000 + k), &fx)) {
+                    Ok(g) => g,
+                    Err(_) => break,
+                };
+                if k == 0 && !g.variant.is_empty() {
+                    streams = 40;
+                }
+                k += 1;
+                let tv = (e.name.to_string(), g.variant.clone());
+                if g.bytes.len() > 1024 || g.bytes.len() < 8 || !probed.insert(tv.clone()) {
+                    continue;
+                }
+                ctx.begin_case(0);
+                if run.probe(e, 0, &g.bytes) {
+                    fragile.insert(tv);
+                }
+            }
+        }
+        run.sh.max("max.preflight.variants_probed", probed.len() as u64);
+    }
+    for (ri, kind, detail, input, mkind) in run.deferred.take().unwrap_or_default() {
+        run.report(&reg[ri], 0, kind, detail, &input, &mkind);
+    }
     for idx in ctx.indices() {
         ctx.begin_case(idx);
+        let t0 = std::time::Instant::now();
         let mut r = ctx.case_rng(idx);
         // round-robin over the registry, offset by shard so that a truncated run still spreads
         let e = &reg[((idx + ctx.shard as u64 * 7) % ntypes) as usize];
@@ -381,25 +519,46 @@ pub fn run(ctx: &ChildCtx, sh: &mut Shard) {
             run.sh.hit(&format!("variant.{}.{}", e.name, g.variant));
         }
         if let Err(d) = &g.rt {
+            // pinned witness: the first failing value of the same variant from fixed generator
+            // streams (independent of VERIF_SEED), shortest encoding first
+            let mut pinned: Option<GenOut> = None;
+            for k in 0..48u64 {
+                if let Ok(g2) = vmon_core::catch(|| (e.gen)(&mut Rng::new(0xC05_0000 + k), &fx)) {
+                    if g2.rt.is_err() && g2.variant == g.variant && pinned.as_ref().map_or(true, |p| g2.bytes.len() < p.bytes.len()) {
+                        pinned = Some(g2);
+                    }
+                }
+            }
+            let (wb, wd, pin) = match &pinned {
+                Some(p) => (&p.bytes, p.rt.clone().unwrap_err(), true),
+                None => (&g.bytes, d.clone(), false),
+            };
             run.sh.violate(
                 idx,
                 "roundtrip",
-                format!("roundtrip:{}:{}", e.name, util::hex_sig(&g.bytes)),
-                format!("{} ({}): {}", e.name, g.variant, d),
-                json!({"mode": "value", "type": e.name, "variant": g.variant, "input_hex": vmon_core::hex(&g.bytes)}),
+                format!("roundtrip:{}:{}", e.name, util::hex_sig(wb)),
+                format!("{} ({}): {}", e.name, g.variant, wd),
+                json!({"mode": "value", "type": e.name, "variant": g.variant, "input_hex": vmon_core::hex(wb), "pinned_generator_stream": pin}),
             );
         }
         let b = g.bytes;
+        let n = b.len();
+        let tv = (e.name.to_string(), g.variant.clone());
         let other = match vmon_core::catch(|| (e.gen)(&mut r, &fx)) {
             Ok(g2) => g2.bytes,
             Err(_) => vec![],
         };
+        let heavy = e.heavy || n > 600;
         // the valid encoding itself through the judged path (allocation bound on valid input)
         run.eval(e, idx, "valid", &b, &b);
-        let budget: u64 = if e.heavy || b.len() > 600 { 30 } else { 260 };
+        // --- abort-safe probe, once per (type, variant) and shard (normally done in the pre-flight)
+        if !heavy && (8..=1024).contains(&n) && probed.insert(tv.clone()) && run.probe(e, idx, &b) {
+            fragile.insert(tv.clone());
+        }
+        let is_fragile = fragile.contains(&tv) || run.abort_prone.contains(e.name);
+        let budget: u64 = if heavy { 30 } else { 260 };
         let budget = if nodebug { budget / 2 } else { budget };
         // --- systematic part
-        let n = b.len();
         // truncation at (sampled) every offset
         let step = (n / 48).max(1);
         let mut off = r.below(step as u64) as usize;
@@ -407,22 +566,20 @@ pub fn run(ctx: &ChildCtx, sh: &mut Shard) {
             run.eval(e, idx, "truncate_at", &b[..off], &b);
             off += step;
         }
-        if !e.heavy || idx % 4 == 0 {
+        if (!heavy || idx % 4 == 0) && n > 0 {
             // tag sweep on the first byte
-            if n > 0 {
-                let mut m = b.clone();
-                for t in 0..=255u8 {
-                    if t == b[0] {
-                        continue;
-                    }
-                    m[0] = t;
-                    run.eval(e, idx, "tag_sweep", &m, &b);
+            let mut m = b.clone();
+            for t in 0..=255u8 {
+                if t == b[0] {
+                    continue;
                 }
+                m[0] = t;
+                run.eval(e, idx, "tag_sweep", &m, &b);
             }
         }
         // length-field inflation on sampled windows, ascending values, stop at the first violation per window
-        if n > 0 {
-            let windows = if e.heavy { 6 } else { 24 };
+        if n > 0 && !is_fragile {
+            let windows = if heavy { 6 } else { 24 };
             for _ in 0..windows {
                 let w = *r.pick(&[1usize, 2, 4, 8]);
                 if w > n {
@@ -457,7 +614,7 @@ pub fn run(ctx: &ChildCtx, sh: &mut Shard) {
                     run.eval(e, idx, "bitmap16", &m, &b);
                 }
             }
-        } else if n >= 2 && !e.heavy {
+        } else if n >= 2 && !heavy && !is_fragile {
             let at = r.below(n as u64 - 1) as usize;
             let mut m = b.clone();
             for _ in 0..64 {
@@ -465,15 +622,14 @@ pub fn run(ctx: &ChildCtx, sh: &mut Shard) {
                 run.eval(e, idx, "bitmap16_sampled", &m, &b);
             }
         }
-        // --- random part (skipped for a type whose decoder already showed an unbounded
-        // allocation in this shard: a random length could then demand more than the
-        // allocator's hard limit and abort the whole shard)
+        // --- random part (skipped for a (type, variant) whose decoder already showed an
+        // unbounded allocation in this shard: a random length could then demand more than
+        // the allocator's hard limit and abort the whole shard)
         let mut changed_ok = false;
-        let alloc_seen = run.buckets.get(&(e.name.to_string(), "alloc-bound".to_string())).copied().unwrap_or(0) > 0;
-        if alloc_seen {
+        if is_fragile {
             run.sh.hit("skipped.random_part_after_alloc_violation");
         }
-        for _ in 0..(if alloc_seen { 0 } else { budget }) {
+        for _ in 0..(if is_fragile { 0 } else { budget }) {
             let (k, mut m) = util::mutate(&mut r, &b, &other);
             if r.chance(1, 5) {
                 let (_, m2) = util::mutate(&mut r, &m, &other);
@@ -491,6 +647,9 @@ pub fn run(ctx: &ChildCtx, sh: &mut Shard) {
             let name = e.name;
             let variant = g.variant.clone();
             run.sh.sample(|| json!({"type": name, "variant": variant, "valid_encoding_hex": vmon_core::hex_short(&b, 120), "mutations_tried": budget}));
+        }
+        if profile {
+            run.sh.add(&format!("profile_us.{}", e.name), t0.elapsed().as_micros() as u64);
         }
     }
     run.sh.max("max.types.exercised", exercised.len() as u64);
